@@ -17,6 +17,8 @@ import (
 	sdk "github.com/cosmos/cosmos-sdk/types"
 	"pgregory.net/rapid"
 
+	"github.com/regen-network/regen-ledger/x/data/v3"
+
 	"verif/chain"
 	"verif/snap"
 )
@@ -107,6 +109,7 @@ type World struct {
 	hashPool       [][]byte
 	lastDigest     []byte
 	lastDigestStep int
+	bulkGraphs     []*data.ContentHash_Graph // graphs attested by bulkAttest steps
 }
 
 type originRef struct{ ID, Source, Contract string }
